@@ -473,6 +473,9 @@ def _collect_history(shard, seed, n):
 
 
 def run_case(case):
+    if case.get("kind") == "mid-call":
+        from .. import midcall
+        return midcall.run_case(case)
     if case.get("history"):
         return check_after_history(case)
     if case.get("conc"):
@@ -549,10 +552,13 @@ def main(ctx):
     col.merge(common.run_shards(_collect_registry, 4 if ctx.quick else 16, ctx.seed + 99, n=100 if ctx.quick else 2000))
     # the very first decodes of a process, made by two threads at once (fresh interpreter per scenario, one thread parked mid-way)
     list(common.first_use_sweep(col, "c02", "known (vendor, code) pairs are materialised as their dictionary class - from the first decode of the process, in every thread"))
+    from .. import midcall
+    midcall.sweep(col, "c02", "a stream decodes the same whatever another thread is decoding at the same time (not only at first use)",
+                  ks=[1] if ctx.quick else [1, 2, 3], nmax=46000, chunk=8, step=487 if ctx.quick else 149)
     col.merge(common.run_shards(_collect_history, 8 if ctx.quick else 16, ctx.seed + 33, n=30 if ctx.quick else 800))
     for path, rec in common.load_replays(PID):
         col.record(rec["case"], run_case(rec["case"]), nontrivial=True, classes=["replay"])
-    ctx.required_classes = ["first-use-parked-mid-call", "decoded-after-refused-inputs", "decoded-after-in-place-edit-of-an-earlier-result", "non-default-flags", "non-default-flags-nested", "unknown-pair", "multi-message", "nested-grouped",
+    ctx.required_classes = ["mid-call-parked", "first-use-parked-mid-call", "decoded-after-refused-inputs", "decoded-after-in-place-edit-of-an-earlier-result", "non-default-flags", "non-default-flags-nested", "unknown-pair", "multi-message", "nested-grouped",
                             "reserved-flag-bits", "grouped", "concurrent-decode-delayed-inside-registry-code", "concurrent-decode-two-delays",
                             "class-defined-after-pair-was-seen"]
     ctx.assumptions = ["Vendor-ID 0 with the V flag is not generated (RFC 6733 4.1.1 forbids it)",
